@@ -169,7 +169,10 @@ class Sequence:
     def delta(self):
         return (self.deltaForm(5) + self.deltaForm(6)) / 2
 
-    # ---- C01
+    # ---- C01 (delta-max itself is C03's; here it is an opaque non-negative quantity)
+    def deltaMax(self):
+        return self.dmax
+
     def kappa(self):
         if self.deltaMax() == 0:
             return -1
@@ -180,8 +183,8 @@ class Sequence:
 
     # ---- C08: fp, fn are the fractions of positive / negative residues
     def phasePlotRegion(self):
-        fp = self.countPos() / self.len
-        fn = self.countNeg() / self.len
+        fp = len(np.where(self.chargePattern > 0)[0]) / self.len
+        fn = len(np.where(self.chargePattern < 0)[0]) / self.len
         if fp + fn < 0.25:
             return 1
         if fp + fn <= 0.35:
